@@ -2151,3 +2151,20 @@ mod tests {
         assert_eq!(200000000000, capacity);
     }
 }
+
+#[cfg(feature = "verif-hooks")]
+impl IndexerHandle {
+    /// Build a handle over an already opened store (no tx-pool overlay).
+    pub(crate) fn verif_new(
+        store: RocksdbStore,
+        request_limit: usize,
+        timeout_limit: Duration,
+    ) -> Self {
+        IndexerHandle {
+            store,
+            pool: None,
+            request_limit,
+            timeout_limit,
+        }
+    }
+}
